@@ -66,7 +66,7 @@ def iter_key(l):
 
 PROPS['C17'] = dict(
     id='C17',
-    modules=['CollectionModel.Props.C17', 'CollectionModel.Tie.Fns'],
+    modules=['CollectionModel.Props.C17', 'CollectionModel.Tie.Fns', 'CollectionModel.Tie.LoopsArray'],
     key=iter_key, nontrivial=lambda l: True,
     rule="cases = single iterator moves (snapshot, slot before, move, slot after, result) on iterators obtained from all "
          "seven collection kinds: every move from every (size 0..4, slot) state, all move sequences up to length 2 (quick) / "
@@ -74,7 +74,7 @@ PROPS['C17'] = dict(
          "distinct = distinct (source kind, move, size, slot position, ToSlot argument class, after-mutation?, which iterator)",
     exhaustive_subspaces="every move (ToSlot k for k in -size-2..size+2) from every state (size 0..4, slot 0..size) for all seven kinds",
     level_text="Lean 4 theorems C17_step_inv / C17_run_inv (0 <= slot <= size and the snapshot is never written, for every move sequence), C17_step_refines (every move is what the abstract cursor allows: HasNext/HasPrevious iff a value exists, GetNext/GetPrevious, zero value at the ends, ToSlot clamping and negative slots), C17_next_prev, C17_ends, C17_independent. Snapshot semantics are tied to the code by the correspondence run: the line carries the snapshot taken when the iterator was obtained and the real iterator is moved after the collection was mutated.",
-    level_note="Storage aliasing (the snapshot array is private) is a runtime fact of Go slices; it is checked dynamically by the interleaved-mutation walks, not proved. Iterator[V]().MakeFromArray(a) called directly keeps the caller's array by design and is out of scope (the property speaks of iterators obtained from collections).",
+    level_note="Storage aliasing: for Array (and the collections that delegate to it) array_.GetIterator is translated from the source and Tie.arrayGetIterator_tie shows that the iterator walks over a NEW array that no later write to the collection reaches; for Catalog, Map and Queue it is checked dynamically by the interleaved-mutation walks. Iterator[V]().MakeFromArray(a) called directly keeps the caller's array by design and is out of scope (the property speaks of iterators obtained from collections).",
 )
 
 PROPS['C09'] = dict(
